@@ -9,6 +9,7 @@ import (
 	"bytes"
 	"fmt"
 	"os"
+	"path"
 	"sort"
 	"strings"
 
@@ -370,6 +371,9 @@ func refDecode(format string, data []byte) ([]byte, bool) {
 func modelOperand(v *Inv, st fsState, name string) Expect {
 	e := Expect{Operand: name, Compress: !v.Decompress}
 	fail := func(why string) Expect { e.Fail, e.Why = true, why; return e }
+	if len(path.Base(name)) > simos.NameMax {
+		return fail("file name too long")
+	}
 	f := st[name]
 	if f == nil {
 		return fail("no such file")
@@ -444,6 +448,10 @@ func modelOperand(v *Inv, st fsState, name string) Expect {
 		default:
 			return fail("unknown suffix")
 		}
+	}
+	if len(path.Base(e.Target)) > simos.NameMax {
+		e.Target = ""
+		return fail("target name too long")
 	}
 	if t := st[e.Target]; t != nil && !v.Force {
 		e.Target = ""
